@@ -118,6 +118,47 @@ def shard(task):
   return {'n': n, 'nontrivial': nontriv, 'violations': list(vios.values())}
 
 
+def designer_shard(task):
+  """The GP designers warp the labels of every metric with a warper of its own and un-warp predictions with the warpers they
+  kept: for 1-3 metrics of very different scales (every assignment of 4 label sets to the metrics), the warper the designer
+  keeps for metric i must invert what it did to metric i."""
+  import itertools
+  import jax
+  from vizier import pyvizier as vz
+  from vizier._src.algorithms.designers import gp_ucb_pe
+  vios, n = {}, 0
+  SETS = {'small': [0.3, 1.1, 0.9, 1.92, 0.5], 'big': [700.0, 1500.0, 1100.0, 900.0, 1300.0], 'neg': [-5.0, -1.0, -3.0, -2.0, -4.0], 'ties': [1.0, 1.0, 2.0, 0.0, 2.0]}
+  for k in (1, 2, 3):
+    for names in itertools.permutations(SETS, k):
+      n += 1
+      prob = vz.ProblemStatement()
+      prob.search_space.root.add_float_param('x', 0.0, 1.0)
+      for i in range(k):
+        prob.metric_information.append(vz.MetricInformation('m%d' % i, goal=vz.ObjectiveMetricGoal.MAXIMIZE))
+      try:
+        d = gp_ucb_pe.VizierGPUCBPEBandit(prob, rng=jax.random.PRNGKey(1))
+        trials = []
+        for j in range(5):
+          t = vz.Trial(id=j + 1, parameters={'x': 0.1 + 0.2 * j})
+          t.complete(vz.Measurement({'m%d' % i: SETS[nm][j] for i, nm in enumerate(names)}))
+          trials.append(t)
+        data = d._trials_to_data(trials)     # pylint: disable=protected-access
+        kept = list(d._output_warpers)       # pylint: disable=protected-access
+        warped = np.asarray(data.labels.unpad())
+      except AttributeError:
+        continue         # the designer no longer exposes these internals: nothing to observe at this seam
+      if len(kept) != k:
+        sig = 'C18|designer-keeps-one-warper-per-metric|gp_ucb_pe'
+        vios.setdefault(sig, {'sig': sig, 'desc': 'metrics %s: the designer keeps %d warpers for %d metrics' % (names, len(kept), k), 'case': None})
+        continue
+      for i, nm in enumerate(names):
+        back = np.asarray(kept[i].unwarp(warped[:, i:i + 1])).reshape(-1)
+        if not np.allclose(back, np.array(SETS[nm]), rtol=1e-4, atol=1e-6):
+          sig = 'C18|unwarp-inverse|gp_ucb_pe-per-metric-warpers'
+          vios.setdefault(sig, {'sig': sig, 'desc': 'metrics %s: un-warping the warped labels of metric %d (%s = %s) with the warper the designer kept for it gives %s' % (names, i, nm, SETS[nm], back.tolist()), 'case': None})
+  return {'n': n, 'nontrivial': n, 'violations': list(vios.values())}
+
+
 def run(ctx):
   ws = warpers()
   fast = [w for w in ws if 'outliers' not in w and w not in ('TransformToGaussian',)]
@@ -133,6 +174,10 @@ def run(ctx):
       tasks.append({'warpers': ['default(half=1,log=1,infeasible=1)'], 'firsts': [f], 'maxlen': 5})
   tot = nontriv = 0
   for r in ctx.pmap('shard', tasks):
+    tot += r['n']
+    nontriv += r['nontrivial']
+    ctx.extend(r['violations'])
+  for r in ctx.pmap('designer_shard', [{}]):
     tot += r['n']
     nontriv += r['nontrivial']
     ctx.extend(r['violations'])
